@@ -870,4 +870,4 @@ func c07Gen(tier string, rng *rand.Rand, emit func(string)) map[string]interface
 	}
 }
 
-func init() { register("C07", &Prop{Gen: c07Gen, Run: c07Run, CaseTimeout: 90 * time.Second}) }
+func init() { register("C07", &Prop{Gen: c07Gen, Run: c07Run, CaseTimeout: 60 * time.Second}) }
